@@ -4,6 +4,8 @@ S=/verif/seeded/$1; T=${2:-quick}
 if [ -n "$(git -C /repo status --porcelain)" ]; then echo "/repo has uncommitted changes: commit them first (the undo step would discard them)"; exit 3; fi
 P=$(python3 -c "import json;print(json.load(open('$S/meta.json'))['property'])")
 git -C /repo apply $S/patch.diff 2>/dev/null || git -C /repo apply -C1 $S/patch.diff 2>/dev/null || (cd /repo && patch -p1 -F3 -s < $S/patch.diff) || exit 2
+cp /verif/evidence/$P.json /tmp/seedrun_ev_$P.json 2>/dev/null
 (cd /verif && bin/vcheck check --property $P --tier $T) > /tmp/seedrun_$1.log 2>&1; RC=$?
+cp /tmp/seedrun_ev_$P.json /verif/evidence/$P.json 2>/dev/null
 git -C /repo checkout -- .; git -C /repo clean -fdq -- "*.orig" "*.rej" 2>/dev/null; find /repo -name "*.orig" -o -name "*.rej" | xargs -r rm -f
 echo "$1 property=$P exit=$RC"; grep -c "^VIOLATION" /tmp/seedrun_$1.log; grep "^VIOLATION" /tmp/seedrun_$1.log | cut -c1-330 | head -5
